@@ -58,6 +58,12 @@ class Func:
                            if nm.split(".")[-1] not in ("lru_cache", "cache") and not (cls is not None and nm in ("staticmethod", "property"))]
         self.is_method = cls is not None and not self.is_static and bool(self.posparams) and self.posparams[0] == "self"
         self.is_generator = _has_yield(node)
+        self.home = None          # set when the function is re-exported by a public module under its own name (Program._rehome_private_modules)
+
+    @property
+    def public_module(self):
+        """the module the function is known under: where it is written, or the public module that re-exports it from a private one"""
+        return self.home if self.home is not None else self.module
 
     @property
     def params(self):
@@ -257,6 +263,38 @@ class Program:
                 for f in c["methods"].values():
                     self.funcs[f.qname] = f
         self.rebinds = self._scan_rebinds()
+        self._rehome_private_modules()
+
+    def _rehome_private_modules(self):
+        """A function or class that lives in a private module of the repository (`sempler/_helpers.py`) and is imported under its own name into a public
+        module (`from sempler._helpers import pa` in sempler/utils.py) is known by the public name: `sempler.utils.pa` - where callers, documentation and
+        the rules find it. Its body still resolves names in the module it is written in (Func.module); Func.home is the public module."""
+        for m in list(self.modules.values()):
+            if m.name.rsplit(".", 1)[-1].startswith("_"):
+                continue
+            for local, target in list(m.imports.items()):
+                tmod, _, tname = target.rpartition(".")
+                pm = self.modules.get(tmod)
+                if pm is None or pm is m or not tmod.rsplit(".", 1)[-1].startswith("_") or tmod.endswith("__init__") or local != tname:
+                    continue
+                if tname in pm.funcs and tname not in m.funcs:
+                    f = pm.funcs[tname]
+                    if getattr(f, "home", None) is not None:
+                        continue
+                    f.home = m
+                    f.qname = "%s.%s" % (m.name, tname)
+                    self.funcs[f.qname] = f
+                    m.funcs[tname] = f
+                    m.imports.pop(local, None)
+                elif tname in pm.classes and tname not in m.classes:
+                    c = pm.classes[tname]
+                    m.classes[tname] = c
+                    for f in c["methods"].values():
+                        if getattr(f, "home", None) is None:
+                            f.home = m
+                            f.qname = "%s.%s.%s" % (m.name, tname, f.name)
+                            self.funcs[f.qname] = f
+                    m.imports.pop(local, None)
 
     def _scan_rebinds(self):
         """Assignments that change what a *name* of the repository refers to, after its definition: `Class.method = g`,
